@@ -18,7 +18,7 @@ func init() {
 	register(&Property{
 		ID:        "C05",
 		Title:     "Missing or invalid references fail closed",
-		Technique: "static analysis: constant-table evaluation of the deny stand-in, path-sensitive value provenance (phi edges vs. nil guards), forward cut-set analysis on the SSA CFG, store-root ownership",
+		Technique: "static analysis: constant-table evaluation of the deny stand-in, path-sensitive value provenance (phi edges vs. nil guards), forward cut-set analysis on the SSA CFG, store-root ownership, per-edge value provenance of the tier default action, shared label-inheritance registry discipline (C07.parentreg)",
 		DesignRef: "DESIGN.md §3 C05",
 		Explanation: "Decides the structural clauses on ActiveRulesCalculator and ValidationFilter. (dummy) The stand-in DummyDropRules has, for every rule-list field of model.ProfileRules, at least one rule, every rule is " +
 			"exactly {Action: \"deny\"} with no match field, and nothing in felix/calc stores through the variable. (nonnil) Every rules argument passed to ruleScanner.OnProfileActive is, on every incoming path, either " +
@@ -28,8 +28,13 @@ func init() {
 			"path from its non-nil edge to the store of the update into the outgoing slice stores nil into the update's Value first, and that outgoing slice (not the incoming one) is what the sink receives. (nomutate) ValidationFilter writes only to its own locals and receiver: a value that is kept is passed through unmodified, never partially applied. " +
 			"(relay) On the Typha path to Felix, every function of typha/pkg/syncproto that converts between api.Update and SerializedUpdate and can fail returns a non-nil error only for a failed key conversion " +
 			"(model.KeyFromDefaultPath nil / model.KeyToDefaultPath error): the callers (snapshot cache, sync client) drop an update whose conversion fails, which would leave the previous version of the resource in force, " +
-			"so a value that cannot be parsed or serialized must still produce an update for its key.",
-		NotDecided: "That downstream renderers treat the deny stand-in as deny (C08/C09); that the validators reject every invalid resource; mutation of DummyDropRules through the pointer handed to the rule scanner; that consumers of Value==nil treat it as deletion (C01.nilnotype covers the UpdateType side); that model.ParseValue returns a nil value together with its error (relay decides only that the update is not dropped).",
+			"so a value that cannot be parsed or serialized must still produce an update for its key. " +
+			"(tieraction) A tier that is missing, deleted or invalid is a placeholder whose DefaultAction is empty, and every dataplane renders the end-of-tier drop unless DefaultAction == Pass; so on the chain apiv3.TierSpec -> model.Tier -> calc.TierInfo -> proto.TierInfo " +
+			"every value stored into a DefaultAction field is, on every incoming path, a copy of another DefaultAction of the chain (conversions, generated getters, helper calls followed), a constant other than Pass, or the constant Pass behind a branch that established `source DefaultAction == Pass` " +
+			"(\"anything but Pass is Deny\"); the unconditional constant Pass is accepted only on a freshly built tier object whose policy lists are updated solely under policyMetadata.DoNotTrack()/PreDNAT() (untracked and pre-DNAT tiers must pass on to the normal tiers). " +
+			"(inheritreg) A profile that an endpoint names but that does not exist yet is a label-less placeholder parent in the label inheritance index; it must survive (and stay the object the endpoint points at) until the profile arrives, otherwise the late profile's labels never reach the endpoint and policies selecting on them never apply: " +
+			"the registry discipline of C07.parentreg is armed here under C05's id.",
+		NotDecided: "That downstream renderers treat the deny stand-in as deny (C08/C09); that the validators reject every invalid resource; mutation of DummyDropRules through the pointer handed to the rule scanner; that consumers of Value==nil treat it as deletion (C01.nilnotype covers the UpdateType side); that model.ParseValue returns a nil value together with its error (relay decides only that the update is not dropped); the DefaultAction copies made after the proto boundary (felix/dataplane/*: rules.TierPolicyGroups, BPF, Windows) and the consumers' `!= Pass` tests (C09.tiermarks decides the iptables one); that the policy tested by DoNotTrack()/PreDNAT() is the policy being added to a constant-Pass tier object.",
 		Assumptions: []string{
 			"go/types + go/ssa (x/tools v0.50.0) model of the current source, CGO_ENABLED=0 build",
 			"model.Rule.Action \"deny\" is the deny verdict of the policy model (API contract)",
@@ -65,6 +70,25 @@ func init() {
 				Old: "\t\t} else {\n\t\t\tif obj, ok := parsedValue.(v1.Object); ok {", New: "\t\t\treturn api.Update{}, err\n\t\t} else {\n\t\t\tif obj, ok := parsedValue.(v1.Object); ok {", Expect: "C05.relay/SerializedUpdate.ToUpdate"},
 			{Name: "serializer reports an unserializable value instead of simulating a deletion", File: "typha/pkg/syncproto/sync_proto.go",
 				Old: "\t\terr = nil\n\t\treturn\n", New: "\t\treturn\n", Expect: "C05.relay/SerializeUpdate"},
+			{Name: "default action normalised to Deny-or-Pass on the way to the dataplane (missing tier's empty action becomes Pass)", File: "felix/calc/event_sequencer.go",
+				Old:    "\t\t\tnormalTierInfo := &proto.TierInfo{Name: ti.Name, DefaultAction: string(ti.DefaultAction)}\n",
+				New:    "\t\t\tnormalAction := string(v3.Pass)\n\t\t\tswitch ti.DefaultAction {\n\t\t\tcase v3.Deny:\n\t\t\t\tnormalAction = string(v3.Deny)\n\t\t\t}\n\t\t\tnormalTierInfo := &proto.TierInfo{Name: ti.Name, DefaultAction: normalAction}\n",
+				Expect: "C05.tieraction/tierInfoToProtoTierInfo/proto.TierInfo.DefaultAction"},
+			{Name: "normal tier sent with the constant Pass like the untracked tiers", File: "felix/calc/event_sequencer.go",
+				Old:    "\t\t\tnormalTierInfo := &proto.TierInfo{Name: ti.Name, DefaultAction: string(ti.DefaultAction)}\n",
+				New:    "\t\t\tnormalTierInfo := &proto.TierInfo{Name: ti.Name, DefaultAction: string(v3.Pass)}\n",
+				Expect: "C05.tieraction/tierInfoToProtoTierInfo/proto.TierInfo.DefaultAction"},
+			{Name: "tier without a default action converted to Pass", File: "libcalico-go/lib/backend/syncersv1/updateprocessors/tierprocessor.go",
+				Old:    "\tif v3res.Spec.DefaultAction != nil && *v3res.Spec.DefaultAction == apiv3.Pass {\n",
+				New:    "\tif v3res.Spec.DefaultAction == nil || *v3res.Spec.DefaultAction == apiv3.Pass {\n",
+				Expect: "C05.tieraction/ConvertTierV3ToV1Value/model.Tier.DefaultAction"},
+			{Name: "deleted tier's placeholder reset to Pass", File: "felix/calc/policy_sorter.go",
+				Old: "\t\t\t\ttierInfo.DefaultAction = \"\"\n", New: "\t\t\t\ttierInfo.DefaultAction = v3.Pass\n",
+				Expect: "C05.tieraction/PolicySorter.OnUpdate/calc.TierInfo.DefaultAction"},
+			{Name: "placeholder of a missing profile dropped on endpoint update (late profile's labels never inherited)", File: "felix/labelindex/label_inheritance_index.go",
+				Old: "\t\tif currentParentIDs.Contains(parent.id) {\n\t\t\t// Make sure we don't delete current parents from the index.\n\t\t\tcontinue\n\t\t}\n", New: "", Expect: "C05.inheritreg/drop/InheritIndex.onItemParentsUpdate"},
+			{Name: "endpoint points at a private placeholder instead of the registered one", File: "felix/labelindex/label_inheritance_index.go",
+				Old: "\t\t\tparents[i] = idx.getOrCreateParent(pID)\n", New: "\t\t\tparents[i] = &parentData{id: pID}\n", Expect: "C05.inheritreg/refs/InheritIndex.UpdateLabels"},
 		},
 	})
 }
@@ -72,7 +96,7 @@ func init() {
 const c05ProtoPkg = "typha/pkg/syncproto"
 
 func runC05(c *Ctx) {
-	p := c.Load(calcPkg, c05ProtoPkg)
+	p := c.Load(calcPkg, c05ProtoPkg, c07IdxPkg, c05UpdProcPkg)
 	c.Rule("C05.dummy", "E-CONST/E-OWN", "DummyDropRules: every []model.Rule field of model.ProfileRules is present, non-empty, each element exactly {Action: \"deny\"}; no store through the variable in felix/calc", 3)
 	c.Rule("C05.nonnil", "E-FLOW", "every rules argument of ruleScanner.OnProfileActive is, per incoming path, &DummyDropRules or guarded non-nil", 2)
 	c.Rule("C05.replace", "E-PAIR", "every Set/Delete on ActiveRulesCalculator.allProfileRules is followed on every returning path by a call that announces the profile to the rule scanner, unless profileIDToEndpointKeys.ContainsKey is false", 2)
@@ -81,12 +105,17 @@ func runC05(c *Ctx) {
 
 	c.Rule("C05.relay", "E-ERR (forward dataflow over the error result)", "a Typha (de)serializer of updates returns a non-nil error only when the KEY conversion failed; a value that cannot be (de)serialized still yields an update for its key (nil value = absent), because the callers drop an update on error", 2)
 
+	c.Rule("C05.tieraction", "E-FLOW (per-edge value provenance)", "every value stored into a DefaultAction field of the tier chain (model.Tier, calc.TierInfo, proto.TierInfo) is, per incoming path, a copy of another DefaultAction of the chain, a constant other than Pass, or the constant Pass under `source DefaultAction == Pass`; an unconditional Pass only on a fresh tier object confined to untracked/pre-DNAT policies", 4)
+	c.Rule("C05.inheritreg", "E-GUARD/E-ORDER/E-FLOW", "the placeholder that stands for a referenced but missing profile in the label inheritance index survives while an endpoint references it (shared with C07.parentreg): a parent registry entry is deleted only when it has no children and no labels; an item is unregistered from / the registry entry dropped for an old parent only if that parent is not among the item's new parents (or after re-registration); an item's parent list holds registry objects only", 4)
+
 	dummy := c05Dummy(c, p)
 	c05NonNil(c, p, dummy)
 	c05Replace(c, p)
 	c05ValidNil(c, p)
 	c05NoMutate(c, p)
 	c05Relay(c, p)
+	c05TierAction(c, p)
+	c07ParentReg(c, p, "C05.inheritreg")
 }
 
 // ------------------------------------------------------------------ dummy --
